@@ -486,6 +486,33 @@ Definition sk_prw (n : nat) (nr ns dg : list nat) (mx : nat) : cmd :=
   seq [ ListCopy 20 0 n; ListCopy 21 1 n; prw_writes 20 21 nr ns dg mx; ListNew 12 [20; 21] ].
 Definition old_prw (nr ns dg : list nat) (mx : nat) : cmd := Seq (prw_writes 0 1 nr ns dg mx) (ListNew 12 [0; 1]).
 
+(* --- tucker_mode_dot(tucker_tensor=0, matrix_or_vector=1, mode=1): copy=True works on copies; copy=False (the default)
+       pops from / assigns into the caller's factor list (vector: factors.pop(mode), a new core; matrix: factors[mode] = ...) *)
+Definition sk_tucker_mode_dot_copy : cmd := seq [
+  ListGet 10 0 0; ListGet 11 0 1;
+  ListGet 12 11 0; Copy 13 12; ListGet 12 11 1; Copy 14 12; ListGet 12 11 2; Copy 15 12;
+  ListNew 16 [13; 14; 15]; Copy 17 10;
+  ListGet 20 16 1; ListRemove 16 1; Alloc 21 2; Alloc 22 4;      (* f = factors.pop(mode); core = mode_dot(core, dot(v, f)) *)
+  ListNew 23 [22; 16] ].
+Definition sk_tucker_mode_dot_vec_nocopy : cmd := seq [
+  ListGet 10 0 0; ListGet 11 0 1;
+  ListGet 20 11 1; ListRemove 11 1; Alloc 21 2; Alloc 22 4;
+  ListNew 23 [22; 11] ].
+Definition sk_tucker_mode_dot_matrix_nocopy : cmd := seq [
+  ListGet 10 0 0; ListGet 11 0 1; ListGet 12 11 1; Alloc 13 2; View 14 13 [0; 1]; ListSet 11 1 14;
+  ListNew 23 [10; 11] ].
+
+(* --- index_update(tensor=0, indices, values=1) on the NumPy backend: assigns into its first argument and returns it *)
+Definition sk_index_update : cmd := seq [ WriteInto 0 [1%Z; 2%Z]; Rebind 10 0 ].
+
+(* --- estimator classes (CP, CP_NN_HALS, Tucker ...): `est.fit_transform(tensor)` with self = 0, tensor = 1.  The receiver
+       holds the user's options (init, fixed_modes, mask / sparsity_coefficients ...) as its first `nattr` attributes; they are
+       handed to the decomposition function `body`, whose result is stored as self.decomposition_ (attribute `nattr`). *)
+Definition estimator_fit_pre (nattr : nat) (body : cmd) (ret : var) : list cmd :=
+  map (fun i => ListGet (10 + i) 0 i) (List.seq 0 nattr) ++ [ Call 20 body (1 :: map (fun i => 10 + i) (List.seq 0 nattr)) ret ].
+Definition sk_estimator_fit (nattr : nat) (body : cmd) (ret : var) : cmd :=
+  seq (estimator_fit_pre nattr body ret ++ [ ListSet 0 nattr 20 ]).
+
 (* ================================================================== early exits
    `run c n s` executes at most n primitive commands of c and then stops (an exception raised between two effects
    propagates to the caller: nothing else of the program runs).  Some m = completed with m steps to spare,
